@@ -7,7 +7,7 @@ From Flocq Require Import Core BinarySingleNaN.
 Import ListNotations.
 Require Import GV.Gen.Consts GV.Model.Outcome GV.Model.F32 GV.Model.Kinematics GV.Model.Packets GV.Spec.C19_spec
   GV.Proofs.F32_lemmas GV.Proofs.C19_rotation GV.Proofs.C19_triangle GV.Proofs.C19_profile
-  GV.Proofs.C19_actuator GV.Proofs.C19_deadband GV.Proofs.C19_chain GV.Proofs.C13_roundtrip GV.Proofs.C19_cosines_f32.
+  GV.Proofs.C19_actuator GV.Proofs.C19_deadband GV.Proofs.C19_chain GV.Proofs.C13_roundtrip GV.Proofs.C19_cosines_f32 GV.Proofs.C19_cosines_exact.
 
 (* ---- shortest_rotation: for EVERY finite f32 d >= -2*PI_f ---- *)
 Theorem C19_shortest_rotation : forall d : f32,
@@ -58,6 +58,18 @@ Check C19_law_of_cosines_f32_margin : forall (a b c : f32) t,
   tri_moderate a b c = true -> tri_ints a b c = Some t ->
   (tri_safe t = true -> loc_is_nan a b c = false) /\ (tri_safely_none t = true -> loc_is_nan a b c = true).
 Print Assumptions C19_law_of_cosines_f32_margin.
+
+(* ... and WITHOUT any margin when the arithmetic is exact: sides that are integers below 2048 over a common power of
+   two (3, 4, 7; 6.0, 2.75, 8.75; ...) make every intermediate representable, the quotient is the correctly rounded
+   exact cosine, and every existing triangle - the degenerate ones a + b = c and |a - b| = c included - is answered *)
+Theorem C19_law_of_cosines_exact : forall (a b c : f32) t,
+  tri_moderate a b c = true -> tri_ints a b c = Some t -> tri_small t = true -> tri_exists t = true ->
+  loc_is_nan a b c = false.
+Proof. exact loc_exact_no_nan. Qed.
+Check C19_law_of_cosines_exact : forall (a b c : f32) t,
+  tri_moderate a b c = true -> tri_ints a b c = Some t -> tri_small t = true -> tri_exists t = true ->
+  loc_is_nan a b c = false.
+Print Assumptions C19_law_of_cosines_exact.
 
 (* ---- Linear::update, for EVERY profile with finite gain >= 0 and 0 <= offset <= 32767 and EVERY
    finite error: no panic, a finite value, equal to +-lu_real; lu_real is monotone in the error
